@@ -2,6 +2,7 @@
 from interp import Interp, ITE, Cond, Thrown
 from kernels import make_suv, flatten_ite
 from stdmodel import StdHooks
+from gslmodel import GslHooks
 from poly import Poly
 
 
@@ -10,7 +11,7 @@ class BitwiseCompare(Exception):
         self.where = where
 
 
-class EqHooks(StdHooks):
+class EqHooks(GslHooks):
     def external_call(self, it, name, node, args, this_cell):
         base = name.split('<')[0]
         if base in ('memcmp', 'std::memcmp', '__builtin_memcmp', 'bcmp'):
@@ -29,7 +30,7 @@ class EqHooks(StdHooks):
                 elif cnd:
                     res = 0
             return res
-        return StdHooks.external_call(self, it, name, node, args, this_cell)
+        return GslHooks.external_call(self, it, name, node, args, this_cell)
 
 
 def _run(db, f, this, other):
